@@ -215,3 +215,27 @@ Lib.f_np__linalg__eigh = _eigh
 Lib.f_scipy__linalg__eigh = _sp_eigh
 Lib.f_np__linalg__multi_dot = _multi_dot
 Lib.f_np__flip = _flip
+
+
+# ---- object arrays of concrete shape (np.empty((n, m), dtype=object), np.copy): nested lists of cells
+
+def _empty(self, interp, args, kwargs, node):
+    shp = args[0]
+    if isinstance(shp, tuple) and len(shp) == 2 and all(isinstance(x, int) for x in shp):
+        return CList([CList([None] * shp[1], "ndarray") for _ in range(shp[0])], "ndarray")
+    if isinstance(shp, int):
+        return CList([None] * shp, "ndarray")
+    interp.err(node, "np.empty with symbolic shape")
+
+
+def _copy(self, interp, args, kwargs, node):
+    x = args[0]
+    if isinstance(x, CList):
+        return CList([_copy(self, interp, [y], {}, node) if isinstance(y, CList) else y for y in x.items], x.kind, x.ekind)
+    if _is(x) or isinstance(x, SCALAR):
+        return x
+    interp.err(node, "np.copy(%r)" % (x,))
+
+
+Lib.f_np__empty = _empty
+Lib.f_np__copy = _copy
